@@ -224,7 +224,7 @@ def c19(ctx):
 
 # ----------------------------------------------------------------------------- C20
 SR_KINDS = ["point", "scalar", "suite", "pairing", "bdnmask", "cosimask", "pubpoly", "verifier", "stream", "predicate"]
-SR_INV = ["TypeOK", "NoConflict", "ResultsSequential", "DrawsDistinct", "Emit"]
+SR_INV = ["TypeOK", "NoConflict", "ResultsSequential", "DrawsDistinct", "ObjectUnchanged", "Emit"]
 C20_ASSUME = [
     "the schedule quantifier is discharged by the race detector's happens-before analysis of the accesses that were executed (G goroutines released by one barrier, a few repetitions on fresh shared objects), not by TLC: kyber's methods contain no synchronisation points at which a TLC-chosen schedule could be imposed",
     "TLC checks NoConflict / ResultsSequential over all interleavings only for the footprint model (read-only operations = reads of the shared object + writes of private results) and enumerates the workloads; whether a real method has that footprint is what the race detector observes",
